@@ -352,7 +352,7 @@ class G:
         if strkw or "string" in types:
             n = None
             for k in ("minLength", "maxLength"):
-                if isinstance(s.get(k), (int, float)):
+                if isinstance(s.get(k), (int, float)) and not isinstance(s.get(k), bool) and abs(s[k]) < 8:
                     n = int(s[k]) + r.choice([-1, 0, 0, 1])
             if isinstance(s.get("pattern"), str):
                 for p in PATTERNS:
@@ -365,12 +365,12 @@ class G:
         if arrkw or "array" in types:
             n = r.randrange(0, 4)
             for k in ("minItems", "maxItems"):
-                if isinstance(s.get(k), (int, float)):
+                if isinstance(s.get(k), (int, float)) and not isinstance(s.get(k), bool) and abs(s[k]) < 8:
                     n = max(0, int(s[k]) + r.choice([-1, 0, 0, 1]))
             items = s.get("items")
             arr = []
             if isinstance(items, list):
-                n = max(0, len(items) + r.choice([-1, 0, 1, 2]))
+                n = max(0, min(len(items), 6) + r.choice([-1, 0, 1, 2]))
             for i in range(n):
                 if isinstance(items, list):
                     sub = items[i] if i < len(items) else s.get("additionalItems", {})
@@ -414,7 +414,7 @@ class G:
                 ap = s.get("additionalProperties")
                 obj.setdefault(r.choice(NAMES), self._instance_for(d, ap, depth - 1) if isinstance(ap, dict) else self.value(1))
             for k in ("minProperties", "maxProperties"):
-                if isinstance(s.get(k), (int, float)):
+                if isinstance(s.get(k), (int, float)) and not isinstance(s.get(k), bool) and abs(s[k]) < 8:
                     want = max(0, int(s[k]) + r.choice([-1, 0, 1]))
                     while len(obj) > want:
                         obj.pop(r.choice(list(obj)))
